@@ -394,7 +394,11 @@ def run_impl(case):
     # --- history on ONE estimator object: fit something else first (other data, other options), then the case
     other = dict(case)
     other.update(K=max(1, (case["K"] + 1) % 4), max=2, tol=1e-2, adapt=not case["adapt"],
-                 X=[row[::-1] for row in case["X"][::-1]], script=None)
+                 X=[row[::-1] for row in case["X"][::-1]], script=None,
+                 # same shapes, different CONTENT of every fit argument (penalties, alpha ranges)
+                 pen={"diff": "randpsd", "randpsd": "identity", "identity": "diff", "zero": "diff"}[case["pen"]],
+                 pen_seed=case["pen_seed"] + 17,
+                 ar_v=[case["ar_v"][0] * 10, case["ar_v"][1] * 100], ar_w=[case["ar_w"][0] / 10, case["ar_w"][1] * 10])
     est_h, fd_h, _, _, _, _ = _fit_once(other, True, False)
     with np.errstate(all="ignore"):  # use the first fit (fills any lazily computed state)
         est_h.inverse_transform(np.asarray(est_h.transform(fd_h, method="FCPTPA")))
